@@ -617,7 +617,31 @@ def _unit_gtf_init1(U, variant, prefix="C03"):
         U.prove("%s.gtf.init.keys[%s]#p%d" % (prefix, variant, p.index), "transcript_key, gene_key and subfeature are stored as given (no case folding, stripping or defaulting); the id_spec is the one given, entry by entry - the keys that define the RELATIONS do not change which attribute is the primary key", [], z3.BoolVal(bool(ok)), {}, replay=replay)
 
 
-UNITS = [("bounded.verbose", unit_bounded_verbose), ("gtf.init", unit_gtf_init), ("gtf.init.awkward", unit_gtf_init_awkward), ("block", unit_block), ("finish", unit_finish), ("finish_collision", unit_finish_collision), ("route", unit_route), ("driving_query", unit_driving_query)]
+def unit_bounded_odd_ids(U):
+    """Bounded: the derived gene / transcript is retrievable by EXACTLY the id its exons carry, whatever that id looks like:
+    leading / trailing blanks, a no-break space, a tab-free but odd string, a number, an id that is a prefix of another"""
+    import warnings
+    fails, cases = [], 0
+    ids = [(" T1", " G1"), ("T1 ", "G1"), ("\u00a0T1", "G1"), ("T1", "T1x"), ("007", "1e3"), ("t;1", "g=1"), ("T1", " T1")]
+    for tid, gid in ids:
+        feats = [F.Feature(seqid="c", source="s", featuretype="exon", start=a, end=b, strand="+", attributes={"gene_id": [gid], "transcript_id": [tid]}, dialect=dict(constants.dialect, fmt="gtf")) for a, b in ((10, 20), (40, 50))]
+        cases += 1
+        try:
+            with warnings.catch_warnings():
+                warnings.simplefilter("ignore")
+                db = gffutils.create_db(feats, ":memory:", dialect=dict(constants.dialect, fmt="gtf"))
+            t, g = db[tid], db[gid]
+            obs = [(t.featuretype, t.start, t.end), (g.featuretype, g.start, g.end), sorted(f.featuretype for f in db.children(gid, level=1)), len(list(db.children(tid, level=1))), len(list(db.children(gid, level=2)))]
+            exp = [("transcript", 10, 50), ("gene", 10, 50), ["transcript"], 2, 2]
+            if tid == gid:
+                continue
+            if obs != exp:
+                fails.append({"case": {"transcript_id": tid, "gene_id": gid}, "expected": exp, "observed": obs})
+        except Exception as e:
+            fails.append({"case": {"transcript_id": tid, "gene_id": gid}, "expected": "derived features retrievable by these ids", "observed": repr(e), "stored ids": sorted(f.id for f in db.all_features()) if "db" in dir() else None})
+    U.bounded_result("C03.bounded.odd_ids", "derived gene / transcript stored under exactly the id of their exons (blanks, NBSP, numbers, separators in the id)", "%d id pairs" % len(ids), cases, fails)
+
+UNITS = [("bounded.odd_ids", unit_bounded_odd_ids), ("bounded.verbose", unit_bounded_verbose), ("gtf.init", unit_gtf_init), ("gtf.init.awkward", unit_gtf_init_awkward), ("block", unit_block), ("finish", unit_finish), ("finish_collision", unit_finish_collision), ("route", unit_route), ("driving_query", unit_driving_query)]
 try:
     from standins import C03 as _S
     UNITS = UNITS + list(_S.UNITS)
